@@ -118,6 +118,8 @@ func TestVerifReplayIntents(t *testing.T) {
 		"json string":   {Value: &sdcpb.TypedValue_JsonVal{JsonVal: []byte(`"x"`)}},
 		"json object":   {Value: &sdcpb.TypedValue_JsonVal{JsonVal: []byte(`{"description":"d"}`)}},
 		"json array":    {Value: &sdcpb.TypedValue_JsonVal{JsonVal: []byte(`[]`)}},
+		"json root obj": {Value: &sdcpb.TypedValue_JsonVal{JsonVal: []byte(`{"patterntest":"hallo 00"}`)}},
+		"json root lst": {Value: &sdcpb.TypedValue_JsonIetfVal{JsonIetfVal: []byte(`{"interface":[{"name":"ethernet-1/1","description":"x"}]}`)}},
 		"json broken":   {Value: &sdcpb.TypedValue_JsonVal{JsonVal: []byte(`{`)}},
 		"json empty":    {Value: &sdcpb.TypedValue_JsonVal{JsonVal: []byte{}}},
 		"json ietf obj": {Value: &sdcpb.TypedValue_JsonIetfVal{JsonIetfVal: []byte(`{"sdcio_model:description":"d"}`)}},
